@@ -323,3 +323,344 @@ Proof.
   destruct (zsubcommand_details c d); cbn [option_map']; [|reflexivity].
   f_equal. rewrite !map_app. reflexivity.
 Qed.
+
+(** ---- tame names: the file of every decoration runs ---- *)
+Definition zbare (st : zstate) : bool := match st with ZB | ZW => true | _ => false end.
+Definition is_sq (st : zstate) : bool := match st with ZSQ => true | _ => false end.
+Definition is_dq (st : zstate) : bool := match st with ZDQ => true | _ => false end.
+Definition is_bs (st : zstate) : bool := match st with ZBS => true | _ => false end.
+(** between words, in a word, or after the backslash that ends a spec line *)
+Definition zbb (st : zstate) : bool := zbare st || is_bs st.
+
+(** reading [b] takes every state of [P] to a state of [Q] *)
+Definition pres (P Q : zstate -> bool) (b : bytes) : Prop :=
+  forall st, P st = true -> Q (final sh_step st b) = true.
+Lemma pres_nil P : pres P P [].
+Proof. intros st H. exact H. Qed.
+Lemma pres_app P Q R a b : pres P Q a -> pres Q R b -> pres P R (a ++ b).
+Proof. intros Ha Hb st H. rewrite final_app. apply Hb, Ha, H. Qed.
+Lemma pres_weaken (P P' Q Q' : zstate -> bool) b :
+  (forall st, P' st = true -> P st = true) -> (forall st, Q st = true -> Q' st = true) -> pres P Q b -> pres P' Q' b.
+Proof. intros HP HQ H st Hst. apply HQ, H, HP, Hst. Qed.
+
+Definition all_states : list zstate := [ZB; ZW; ZBS; ZSQ; ZDQ; ZDQB; ZC].
+Definition pres_checkb (P Q : zstate -> bool) (b : bytes) : bool :=
+  forallb (fun st => implb (P st) (Q (final sh_step st b))) all_states.
+Lemma pres_checkb_ok P Q b : pres_checkb P Q b = true -> pres P Q b.
+Proof.
+  unfold pres_checkb. intros H st Hst. rewrite forallb_forall in H.
+  assert (Hin : In st all_states) by (destruct st; cbn; tauto).
+  specialize (H st Hin). rewrite Hst in H. exact H.
+Qed.
+Ltac lit_pres := apply pres_checkb_ok; vm_compute; reflexivity.
+
+Lemma tame_byte_sh c : tame_byte c = true ->
+  (forall st, zbare st = true -> zbare (fst (sh_step st c)) = true) /\
+  fst (sh_step ZSQ c) = ZSQ /\ fst (sh_step ZDQ c) = ZDQ.
+Proof.
+  unfold tame_byte. intros H. apply negb_true_iff in H.
+  apply orb_false_iff in H. destruct H as [H H35]. apply orb_false_iff in H. destruct H as [H H92].
+  apply orb_false_iff in H. destruct H as [H34 H39]. split; [|split].
+  - intros [] Hst; try discriminate; cbn [sh_step]; rewrite H39, H34, H92, H35; cbn [andb];
+      destruct (is_ws c || (c =? 10)); try reflexivity;
+      destruct ((c =? 59) || (c =? 38) || (c =? 124) || (c =? 40) || (c =? 41) || (c =? 60) || (c =? 62)); try reflexivity;
+      destruct ((c =? 36) || (c =? 96)); reflexivity.
+  - cbn [sh_step]. rewrite H39. reflexivity.
+  - cbn [sh_step]. rewrite H34, H92. destruct ((c =? 36) || (c =? 96)); reflexivity.
+Qed.
+
+Lemma pres_tame_bare s : tame s = true -> pres zbare zbare s.
+Proof.
+  induction s as [|c s IH]; intros H; [apply pres_nil|].
+  cbn [tame forallb] in H. apply andb_true_iff in H. destruct H as [Hc Hs].
+  intros st Hst. cbn [final]. apply (IH Hs). apply (proj1 (tame_byte_sh c Hc)). exact Hst.
+Qed.
+Lemma pres_tame_sq s : tame s = true -> pres is_sq is_sq s.
+Proof.
+  induction s as [|c s IH]; intros H; [apply pres_nil|].
+  cbn [tame forallb] in H. apply andb_true_iff in H. destruct H as [Hc Hs].
+  intros [] Hst; try discriminate. cbn [final]. rewrite (proj1 (proj2 (tame_byte_sh c Hc))). apply (IH Hs). reflexivity.
+Qed.
+Lemma pres_tame_dq s : tame s = true -> pres is_dq is_dq s.
+Proof.
+  induction s as [|c s IH]; intros H; [apply pres_nil|].
+  cbn [tame forallb] in H. apply andb_true_iff in H. destruct H as [Hc Hs].
+  intros [] Hst; try discriminate. cbn [final]. rewrite (proj2 (proj2 (tame_byte_sh c Hc))). apply (IH Hs). reflexivity.
+Qed.
+
+Lemma tame_replace_byte c r s : tame r = true -> tame s = true -> tame (replace_byte c r s) = true.
+Proof.
+  intros Hr. unfold replace_byte. induction s as [|x s IH]; intros H; [reflexivity|].
+  cbn [tame forallb] in H. apply andb_true_iff in H. destruct H as [Hx Hs].
+  cbn [flat_map]. rewrite tame_app, (IH Hs), andb_true_r. destruct (x =? c); [exact Hr|].
+  change (tame [x]) with (tame_byte x && true). rewrite Hx. reflexivity.
+Qed.
+
+Lemma tame_dec_digits : forall fuel n acc, tame acc = true -> tame (dec_digits fuel n acc) = true.
+Proof.
+  induction fuel as [|f IH]; intros n acc Ha; [exact Ha|]. cbn [dec_digits].
+  assert (Hd : tame ((48 + n mod 10) :: acc) = true).
+  { change (tame ((48 + n mod 10) :: acc)) with (tame_byte (48 + n mod 10) && tame acc).
+    rewrite Ha, andb_true_r. unfold tame_byte.
+    pose proof (N.mod_upper_bound n 10 ltac:(discriminate)) as Hlt. set (m := n mod 10) in *. clearbody m.
+    apply negb_true_iff. repeat (apply orb_false_iff; split); apply N.eqb_neq; lia. }
+  destruct (n / 10 =? 0); [exact Hd|apply IH; exact Hd].
+Qed.
+Lemma tame_dec n : tame (dec n) = true.
+Proof. apply tame_dec_digits. reflexivity. Qed.
+
+(** ---- pieces ---- *)
+Definition run_to (P Q : zstate -> bool) (l : list zpiece) : Prop :=
+  forall st, P st = true -> exists st', zrun st l = Some st' /\ Q st' = true.
+
+Lemma run_to_nil P : run_to P P [].
+Proof. intros st H. exists st. split; [reflexivity|exact H]. Qed.
+Lemma run_to_app P Q R a b : run_to P Q a -> run_to Q R b -> run_to P R (a ++ b).
+Proof.
+  intros Ha Hb st H. destruct (Ha st H) as (s1 & R1 & B1). destruct (Hb s1 B1) as (s2 & R2 & B2).
+  exists s2. rewrite zrun_app, R1. split; assumption.
+Qed.
+Lemma run_to_weaken (P P' Q Q' : zstate -> bool) l :
+  (forall st, P' st = true -> P st = true) -> (forall st, Q st = true -> Q' st = true) -> run_to P Q l -> run_to P' Q' l.
+Proof. intros HP HQ H st Hst. destruct (H st (HP st Hst)) as (s & R & B). exists s. split; [exact R|apply HQ, B]. Qed.
+Lemma run_to_zx P Q b : pres P Q b -> run_to P Q [Zx b].
+Proof. intros Hb st H. eexists. split; [reflexivity|]. apply Hb, H. Qed.
+Lemma run_to_cons_zx P Q R b l : pres P Q b -> run_to Q R l -> run_to P R (Zx b :: l).
+Proof. intros Hb Hl. apply (run_to_app P Q R [Zx b] l); [apply run_to_zx; exact Hb|exact Hl]. Qed.
+Lemma run_to_zh t : run_to is_sq is_sq [Zh t].
+Proof. intros [] H; try discriminate. exists ZSQ. split; reflexivity. Qed.
+Lemma run_to_zp t : run_to is_sq is_sq [Zp t].
+Proof. intros [] H; try discriminate. exists ZSQ. split; reflexivity. Qed.
+Lemma run_to_cons_zh R t l : run_to is_sq R l -> run_to is_sq R (Zh t :: l).
+Proof. intros Hl. apply (run_to_app is_sq is_sq R [Zh t] l); [apply run_to_zh|exact Hl]. Qed.
+
+Lemma zbare_zbb st : zbare st = true -> zbb st = true.
+Proof. unfold zbb. intros ->. reflexivity. Qed.
+Lemma is_bs_zbb st : is_bs st = true -> zbb st = true.
+Proof. unfold zbb. intros ->. apply orb_true_r. Qed.
+
+Lemma pres_lf_zbb : pres zbb zbare lf.
+Proof. lit_pres. Qed.
+Lemma pres_lf_sq : pres is_sq is_sq lf.
+Proof. lit_pres. Qed.
+
+(** [Vec::join("\n")] of segments that end between words or on the backslash of a spec line *)
+Lemma zjoin_run l : (forall x, In x l -> run_to zbare zbb x) -> run_to zbare zbb (zjoin znl l).
+Proof.
+  induction l as [|x t IH]; intros H.
+  - apply (run_to_weaken zbare zbare zbare zbb); [intros st Hst; exact Hst|apply zbare_zbb|apply run_to_nil].
+  - rewrite zjoin_cons. destruct t as [|y t']; [apply H; left; reflexivity|].
+    apply (run_to_app zbare zbb zbb); [apply H; left; reflexivity|].
+    apply (run_to_app zbb zbare zbb); [apply run_to_zx, pres_lf_zbb|].
+    apply IH. intros z Hz. apply H. right. exact Hz.
+Qed.
+Lemma zjoin_run_last l last :
+  (forall x, In x l -> run_to zbare zbb x) -> run_to zbare zbare last -> run_to zbare zbare (zjoin znl (l ++ [last])).
+Proof.
+  induction l as [|x t IH]; intros H Hl; [exact Hl|].
+  cbn [app]. rewrite zjoin_cons. destruct (t ++ [last]) as [|y t'] eqn:E; [destruct t; discriminate|].
+  apply (run_to_app zbare zbb zbare); [apply H; left; reflexivity|].
+  apply (run_to_app zbb zbare zbare); [apply run_to_zx, pres_lf_zbb|].
+  apply IH; [|exact Hl]. intros z Hz. apply H. right. exact Hz.
+Qed.
+Lemma zjoin_run_bare l : (forall x, In x l -> run_to zbare zbare x) -> run_to zbare zbare (zjoin znl l).
+Proof.
+  induction l as [|x t IH]; intros H; [apply run_to_nil|].
+  rewrite zjoin_cons. destruct t as [|y t']; [apply H; left; reflexivity|].
+  apply (run_to_app zbare zbare zbare); [apply H; left; reflexivity|].
+  apply (run_to_app zbare zbare zbare).
+  - apply run_to_zx. apply (pres_weaken zbb zbare zbare zbare); [apply zbare_zbb|intros st Hst; exact Hst|apply pres_lf_zbb].
+  - apply IH. intros z Hz. apply H. right. exact Hz.
+Qed.
+Lemma zjoin_run_sq l : (forall x, In x l -> run_to is_sq is_sq x) -> run_to is_sq is_sq (zjoin znl l).
+Proof.
+  induction l as [|x t IH]; intros H; [apply run_to_nil|].
+  rewrite zjoin_cons. destruct t as [|y t']; [apply H; left; reflexivity|].
+  apply (run_to_app is_sq is_sq is_sq); [apply H; left; reflexivity|].
+  apply (run_to_app is_sq is_sq is_sq); [apply run_to_zx, pres_lf_sq|].
+  apply IH. intros z Hz. apply H. right. exact Hz.
+Qed.
+
+(** ---- value completions, inside a single-quoted spec ---- *)
+(** [escape_value] of ANY name keeps the lexer inside the quotes (a quote becomes '\'' : out, escaped quote, in again) *)
+Lemma escape_value_char c : final sh_step ZSQ (apply_chain zsh_escape_value_chain [c]) = ZSQ.
+Proof.
+  destruct (in_dec N.eq_dec c (keys zsh_escape_value_chain)) as [Hin|Hout].
+  - cbn in Hin. repeat (destruct Hin as [<-|Hin]; [reflexivity|]). destruct Hin.
+  - rewrite apply_chain_other by (reflexivity || assumption).
+    cbn [final sh_step fst]. destruct (c =? 39) eqn:E; [|reflexivity].
+    exfalso. apply Hout. apply N.eqb_eq in E. subst. cbn. tauto.
+Qed.
+Lemma pres_escape_value s : pres is_sq is_sq (zsh_escape_value s).
+Proof.
+  unfold zsh_escape_value. rewrite apply_chain_charwise by reflexivity.
+  induction s as [|c s IH]; [apply pres_nil|]. cbn [flat_map].
+  apply (pres_app is_sq is_sq is_sq); [|exact IH].
+  intros [] H; try discriminate. rewrite escape_value_char. reflexivity.
+Qed.
+
+Lemma run_tip_entry q : run_to is_sq is_sq (tip_entry q).
+Proof.
+  unfold tip_entry. apply (run_to_cons_zx is_sq is_sq).
+  - apply (pres_app is_sq is_sq is_sq); [apply pres_escape_value|lit_pres].
+  - apply run_to_cons_zh. apply run_to_zx. lit_pres.
+Qed.
+
+Lemma pres_intercalate_sq l : (forall x, In x l -> tame x = true) -> pres is_sq is_sq (intercalate (lit " ") l).
+Proof.
+  induction l as [|x t IH]; intros H; [apply pres_nil|]. cbn [intercalate].
+  destruct t as [|y t']; [apply pres_tame_sq, H; left; reflexivity|].
+  apply (pres_app is_sq is_sq is_sq); [apply pres_tame_sq, H; left; reflexivity|].
+  apply (pres_app is_sq is_sq is_sq); [lit_pres|]. apply IH. intros z Hz. apply H. right. exact Hz.
+Qed.
+
+Lemma pres_hint_sq h s : zhint_completion h = Some s -> pres is_sq is_sq s.
+Proof. destruct h; intros E; inversion E; subst; lit_pres. Qed.
+
+Lemma tame_pvs a vs pv : tame_arg a = true -> possible_values a = Some vs -> In pv vs -> tame (pv_name pv) = true.
+Proof.
+  intros H Hv Hin. destruct (tame_arg_parts a H) as (_ & _ & _ & _ & Hp).
+  unfold possible_values in Hv. destruct (negb (a_takes_values a)); [discriminate|]. rewrite Hv in Hp.
+  apply (forallb_in _ _ _ Hp Hin).
+Qed.
+
+Lemma run_zvalue_completion p val : tame_arg (fst p) = true -> zvalue_completion p = Some val -> run_to is_sq is_sq val.
+Proof.
+  intros Ht. unfold zvalue_completion. destruct (possible_values (fst p)) as [values|] eqn:Ev.
+  - destruct (existsb _ _); intros E; inversion E; subst; clear E.
+    + apply (run_to_cons_zx is_sq is_sq); [lit_pres|].
+      apply (run_to_app is_sq is_sq is_sq); [|apply run_to_zx; lit_pres].
+      apply zjoin_run_sq. intros x Hx. apply in_map_iff in Hx. destruct Hx as (q & <- & _). apply run_tip_entry.
+    + apply run_to_zx. apply (pres_app is_sq is_sq is_sq [40]); [lit_pres|].
+      apply (pres_app is_sq is_sq is_sq); [|lit_pres]. apply pres_intercalate_sq.
+      intros x Hx. apply in_map_iff in Hx. destruct Hx as (pv & <- & Hpv). apply filter_In in Hpv.
+      apply (tame_pvs (fst p) values pv Ht Ev (proj1 Hpv)).
+  - destruct (zhint_completion (a_get_hint (fst p))) as [s|] eqn:Eh; intros E; inversion E; subst.
+    apply run_to_zx. eapply pres_hint_sq. exact Eh.
+Qed.
+
+Lemma run_concat_repeat P x n : run_to P P x -> run_to P P (List.concat (repeat x n)).
+Proof.
+  intros H. induction n as [|n IH]; [apply run_to_nil|]. cbn [repeat List.concat].
+  apply (run_to_app P P P); assumption.
+Qed.
+
+Lemma run_opt_vc p : tame_arg (fst p) = true -> run_to is_sq is_sq (opt_vc p).
+Proof.
+  intros Ht. unfold opt_vc. apply run_concat_repeat.
+  destruct (zvalue_completion p) as [val|] eqn:E.
+  - apply (run_to_cons_zx is_sq is_sq); [lit_pres|]. eapply run_zvalue_completion; eassumption.
+  - apply run_to_zx. lit_pres.
+Qed.
+
+(** ---- spec lines: from between words to the backslash at the end of the line ---- *)
+Lemma arg_conflicts_nil c a g : arg_conflicts c a g = [].
+Proof. unfold arg_conflicts, get_arg_conflicts_with, arg_blacklist. destruct g, (a_global a); reflexivity. Qed.
+
+Lemma pres_multiple a : pres is_sq is_sq (multiple_of a).
+Proof. unfold multiple_of. destruct (a_action a); lit_pres. Qed.
+
+Lemma pres_open_sq : pres zbare is_sq (lit "'").
+Proof. lit_pres. Qed.
+Lemma pres_close_line : pres is_sq is_bs (lit "' \").
+Proof. lit_pres. Qed.
+
+Lemma run_opt_short_line c g p s :
+  tame_arg (fst p) = true -> tame s = true -> run_to zbare is_bs (opt_short_line c g p s).
+Proof.
+  intros Ht Hs. unfold opt_short_line. rewrite arg_conflicts_nil.
+  apply (run_to_cons_zx zbare is_sq).
+  { apply (pres_app zbare is_sq is_sq [39]); [apply pres_open_sq|].
+    apply (pres_app is_sq is_sq is_sq []); [apply pres_nil|].
+    apply (pres_app is_sq is_sq is_sq (multiple_of (fst p))); [apply pres_multiple|].
+    apply (pres_app is_sq is_sq is_sq [45]); [lit_pres|].
+    apply (pres_app is_sq is_sq is_sq s); [apply pres_tame_sq; exact Hs|lit_pres]. }
+  apply run_to_cons_zh. apply (run_to_cons_zx is_sq is_sq); [lit_pres|].
+  apply (run_to_app is_sq is_sq is_bs); [apply run_opt_vc; exact Ht|]. apply run_to_zx, pres_close_line.
+Qed.
+Lemma run_opt_long_line c g p s :
+  tame_arg (fst p) = true -> tame s = true -> run_to zbare is_bs (opt_long_line c g p s).
+Proof.
+  intros Ht Hs. unfold opt_long_line. rewrite arg_conflicts_nil.
+  apply (run_to_cons_zx zbare is_sq).
+  { apply (pres_app zbare is_sq is_sq [39]); [apply pres_open_sq|].
+    apply (pres_app is_sq is_sq is_sq []); [apply pres_nil|].
+    apply (pres_app is_sq is_sq is_sq (multiple_of (fst p))); [apply pres_multiple|].
+    apply (pres_app is_sq is_sq is_sq [45; 45]); [lit_pres|].
+    apply (pres_app is_sq is_sq is_sq s); [apply pres_tame_sq; exact Hs|lit_pres]. }
+  apply run_to_cons_zh. apply (run_to_cons_zx is_sq is_sq); [lit_pres|].
+  apply (run_to_app is_sq is_sq is_bs); [apply run_opt_vc; exact Ht|]. apply run_to_zx, pres_close_line.
+Qed.
+Lemma run_opt_lines c g p line : tame_arg (fst p) = true -> In line (opt_lines c g p) -> run_to zbare is_bs line.
+Proof.
+  intros Ht Hl. unfold opt_lines in Hl. apply in_app_or in Hl. destruct Hl as [Hl|Hl].
+  - destruct (get_short_and_visible_aliases (fst p)) as [ss|] eqn:E; [|destruct Hl]. apply in_map_iff in Hl.
+    destruct Hl as (s & <- & Hs). apply run_opt_short_line; [exact Ht|]. eapply tame_shorts; eassumption.
+  - destruct (get_long_and_visible_aliases (fst p)) as [ss|] eqn:E; [|destruct Hl]. apply in_map_iff in Hl.
+    destruct Hl as (s & <- & Hs). apply run_opt_long_line; [exact Ht|]. eapply tame_longs; eassumption.
+Qed.
+
+Lemma run_zflag_line c g p dashes name :
+  tame dashes = true -> tame name = true -> run_to zbare is_bs (zflag_line c g p dashes name).
+Proof.
+  intros Hd Hn. unfold zflag_line. rewrite arg_conflicts_nil.
+  apply (run_to_cons_zx zbare is_sq).
+  { apply (pres_app zbare is_sq is_sq [39]); [apply pres_open_sq|].
+    apply (pres_app is_sq is_sq is_sq []); [apply pres_nil|].
+    apply (pres_app is_sq is_sq is_sq (multiple_of (fst p))); [apply pres_multiple|].
+    apply (pres_app is_sq is_sq is_sq dashes); [apply pres_tame_sq; exact Hd|].
+    apply (pres_app is_sq is_sq is_sq name); [apply pres_tame_sq; exact Hn|lit_pres]. }
+  apply run_to_cons_zh. apply run_to_zx. lit_pres.
+Qed.
+
+Lemma tame_flag_spellings a x : tame_arg a = true -> In x (flag_spellings a) -> tame (fst x) = true /\ tame (snd x) = true.
+Proof.
+  intros Ht Hx. destruct (tame_arg_parts a Ht) as (Hsh & Hlg & Hsa & Hal & _).
+  unfold flag_spellings in Hx. apply in_app_or in Hx. destruct Hx as [Hx|Hx].
+  - destruct (a_short a) as [s|]; [|destruct Hx]. destruct Hx as [<-|Hx]; [split; [reflexivity|exact Hsh]|].
+    apply in_map_iff in Hx. destruct Hx as (y & <- & Hy). split; [reflexivity|].
+    unfold get_visible_short_aliases in Hy. destruct (is_nil (a_short_aliases a)); [destruct Hy|].
+    exact (tame_visible _ _ Hsa Hy).
+  - destruct (a_long a) as [s|]; [|destruct Hx]. destruct Hx as [<-|Hx]; [split; [reflexivity|exact Hlg]|].
+    apply in_map_iff in Hx. destruct Hx as (y & <- & Hy). split; [reflexivity|].
+    unfold get_visible_aliases in Hy. destruct (is_nil (a_aliases a)); [destruct Hy|].
+    exact (tame_visible _ _ Hal Hy).
+Qed.
+
+Lemma run_flag_lines c g p line : tame_arg (fst p) = true -> In line (flag_lines c g p) -> run_to zbare is_bs line.
+Proof.
+  intros Ht Hl. rewrite flag_lines_spellings in Hl. apply in_map_iff in Hl. destruct Hl as (x & <- & Hx).
+  destruct (tame_flag_spellings _ _ Ht Hx) as [H1 H2]. apply run_zflag_line; assumption.
+Qed.
+
+Lemma run_positional_line card p :
+  tame card = true -> tame_arg (fst p) = true -> tame (a_id (fst p)) = true -> run_to zbare is_bs (positional_line card p).
+Proof.
+  intros Hc Ht Hi. unfold positional_line.
+  apply (run_to_app zbare is_sq is_bs [Zx ([39] ++ card ++ [58] ++ a_id (fst p))]).
+  { apply run_to_zx.
+    apply (pres_app zbare is_sq is_sq [39]); [apply pres_open_sq|].
+    apply (pres_app is_sq is_sq is_sq card); [apply pres_tame_sq; exact Hc|].
+    apply (pres_app is_sq is_sq is_sq [58]); [lit_pres|apply pres_tame_sq; exact Hi]. }
+  apply (run_to_app is_sq is_sq is_bs).
+  { destruct (ad_help (snd p)); [apply run_to_zp|apply run_to_nil]. }
+  apply (run_to_cons_zx is_sq is_sq); [lit_pres|].
+  apply (run_to_app is_sq is_sq is_bs); [|apply run_to_zx, pres_close_line].
+  destruct (zvalue_completion p) as [val|] eqn:E; [eapply run_zvalue_completion; eassumption|apply run_to_nil].
+Qed.
+
+Definition ztame_arg (a : arg) : bool := tame_arg a && tame (a_id a).
+
+Lemma run_positional_lines hs : forall l ce line,
+  (forall p, In p l -> ztame_arg (fst p) = true) -> In line (positional_lines hs ce l) -> run_to zbare is_bs line.
+Proof.
+  induction l as [|p l IH]; intros ce line Ht Hl; [destruct Hl|].
+  assert (Hp : tame_arg (fst p) = true /\ tame (a_id (fst p)) = true).
+  { specialize (Ht p (or_introl eq_refl)). unfold ztame_arg in Ht. apply andb_true_iff in Ht. exact Ht. }
+  assert (Ht' : forall q, In q l -> ztame_arg (fst q) = true) by (intros q Hq; apply Ht; right; exact Hq).
+  cbn [positional_lines] in Hl.
+  destruct (ce && (arg_is_last (fst p) || (1 <? a_max_values (fst p)))); [eapply IH; eassumption|].
+  destruct ((1 <? a_max_values (fst p)) && negb hs).
+  - unfold arg_terminator in Hl. destruct Hl as [<-|Hl]; [apply run_positional_line; [reflexivity|tauto|tauto]|eapply IH; eassumption].
+  - destruct (negb (a_required (fst p))); (destruct Hl as [<-|Hl]; [apply run_positional_line; [reflexivity|tauto|tauto]|eapply IH; eassumption]).
+Qed.
